@@ -62,6 +62,7 @@ def case_normal(ctx, n_on, n_off_slopes):
     on = C[:2 * n_on, 2 * n_on:]
     off = C[2 * n_on:, 2 * n_on:]
     rp = lambda m: replay_normal(m(C), n_on)
+    ctx.fallback = rp
     if R.shape != on.shape:
         ctx.prove("reconstructor shape (2 n_on, off-axis slopes)", pre, z3.BoolVal(False), replay=rp, axioms=False)
         return
@@ -138,6 +139,7 @@ def case_method(ctx):
     ctx.paths += 1
     pre = det_nonzero()
     rp = lambda m: harness.pristine_call(_replay_method)
+    ctx.fallback = rp
     ctx.prove("first request = direct call on the stored matrix with n_subaps[0]", pre, all_eq(r1, d1), replay=rp)
     ctx.prove("request after the matrix was replaced uses the new matrix", pre, all_eq(r2, d2), replay=rp)
     ctx.prove("repeated request with explicit conditioning uses the new matrix", pre, all_eq(r2b, d2), replay=rp)
@@ -199,6 +201,7 @@ def case_method_rebuild(ctx, threads):
     paths, ex = core.run_paths(go, pre)
     ctx.explored(ex, len(paths))
     rp = lambda m: harness.pristine_call(_replay_method_rebuild, threads)
+    ctx.fallback = rp
     for pi, p in enumerate(paths):
         if p.exc is not None:
             ctx.prove("path%d raises %s" % (pi, type(p.exc).__name__), pre + p.pc, z3.BoolVal(False), replay=rp, axioms=False)
@@ -395,6 +398,7 @@ def case_conditioning(ctx, n_on, n_off_slopes):
     ctx.paths += 1
     calls = list(PinvRecorder.calls)
     rp = lambda m: harness.pristine_call(_replay_conditioning, n_on, n_off_slopes)
+    ctx.fallback = rp
     on = C[:2 * n_on, 2 * n_on:]
     off = C[2 * n_on:, 2 * n_on:]
     if len(calls) != 1:
